@@ -149,6 +149,7 @@ func checks() map[string]*Check {
 	// directed choreographies (W2)
 	app := func(id string, rs ...RunSpec) { m[id].Runs = append(m[id].Runs, rs...) }
 	app("C01", RunSpec{Scen: "w2.takeover", Quick: 24, Thorough: 600}, RunSpec{Scen: "w2.figure8", Quick: 16, Thorough: 400}, RunSpec{Scen: "w2.staleinstall", Params: "snapshots=1,snapthr=6,pad=100", Quick: 24, Thorough: 600})
+	app("C01", RunSpec{Scen: "w2.exacthalf", Quick: 8, Thorough: 200})
 	app("C02", RunSpec{Scen: "w2.votes", Quick: 32, Thorough: 800})
 	app("C03", RunSpec{Scen: "w1", Params: "crash=0,bounce=1,applyin=1500,voters=3,clients=6", Quick: 24, Thorough: 600}, RunSpec{Scen: "w1", Params: "crash=0,bounce=1,applyin=1500,voters=1", Quick: 8, Thorough: 200}, RunSpec{Scen: "w2.deposed", Quick: 24, Thorough: 600}, RunSpec{Scen: "w2.bounce", Quick: 16, Thorough: 400}, RunSpec{Scen: "w2.takeover", Quick: 16, Thorough: 400})
 	app("C04", RunSpec{Scen: "w2.exacthalf", Quick: 16, Thorough: 400}, RunSpec{Scen: "w2.acklose", Quick: 24, Thorough: 600})
@@ -156,7 +157,9 @@ func checks() map[string]*Check {
 		RunSpec{Scen: "w2.freshread", Params: "opcap=4000,applyin=300", Quick: 16, Thorough: 400}, RunSpec{Scen: "w2.freshread", Params: "opcap=4000,applyin=300,voters=1", Quick: 8, Thorough: 200},
 		RunSpec{Scen: "w1", Params: "crash=1,reads=1,applyin=400,voters=3", Quick: 24, Thorough: 600}, RunSpec{Scen: "w1", Params: "crash=1,reads=1,voters=1", Quick: 8, Thorough: 200})
 	app("C06", RunSpec{Scen: "w2.takeover", Quick: 24, Thorough: 600}, RunSpec{Scen: "w1", Params: "snapshots=1,crash=1,snapthr=5", Quick: 32, Thorough: 800},
-		RunSpec{Scen: "w2.installcrash", Params: "snapshots=1", Quick: 8, Thorough: 200})
+		RunSpec{Scen: "w2.installcrash", Params: "snapshots=1", Quick: 24, Thorough: 600})
+	app("C07", RunSpec{Scen: "w2.nvquorum", Quick: 12, Thorough: 300})
+	app("C10", RunSpec{Scen: "w1", Params: "snapshots=1,crash=1,snapus=6000,pad=40000,voters=3", Quick: 16, Thorough: 400})
 	app("C07", RunSpec{Scen: "w2.staleinstall", Params: "snapshots=1,snapthr=6,pad=100", Quick: 16, Thorough: 400}, RunSpec{Scen: "w2.takeover", Quick: 24, Thorough: 600}, RunSpec{Scen: "w2.figure8", Quick: 24, Thorough: 600}, RunSpec{Scen: "w2.acklose", Quick: 16, Thorough: 400})
 	app("C08", RunSpec{Scen: "w2.votes", Quick: 24, Thorough: 600})
 
@@ -214,10 +217,18 @@ func checks() map[string]*Check {
 			{Scen: "w2.disrupt", Params: "et=120,hb=12,lease=40", Quick: 48, Thorough: 1200, Par: 8},
 			{Scen: "w2.disrupt", Params: "et=200,hb=15,lease=60", Quick: 16, Thorough: 400, Par: 8},
 			{Scen: "w2.lingering", Params: "et=150,hb=15,lease=50,opcap=100000", Quick: 16, Thorough: 400, Par: 8},
+			{Scen: "w2.disruptrestore", Params: "snapshots=1,et=120,hb=12,lease=40,restoreus=2000000,opcap=100000", Quick: 8, Thorough: 200, Par: 8},
+			{Scen: "puppet.sticky", Quick: 8, Thorough: 200, Par: 8},
+			{Scen: "puppet.sticky", Params: "restoreus=300000", Quick: 8, Thorough: 200, Par: 8},
 		},
-		NT:     func(r *Result) bool { return cnt(r, "c16.windows") > 0 && cnt(r, "msg.RV") > 0 },
-		Rule:   "each run = one guarded window on a stable 3- or 5-voter cluster (optional non-voter): a minority is isolated symmetrically / inbound-only / outbound-only for 0.5-12 election timeouts, crashed and restarted, rejoined through duplicating links, or removed and left running, while clients write to the leader; inside the window no majority-side node may persist a higher term, nobody may become leader, and the leader's samples must stay leader of the same term. Non-trivial: outsiders sent vote requests during the run",
-		Assume: append([]string{"precondition measured per run: gaps between delivered heartbeats on majority links < 1/2 election timeout, scheduler stall < 1/4 election timeout"}, windowAssume...)})
+		NT: func(r *Result) bool {
+			if r.Scen == "puppet.sticky" {
+				return cnt(r, "sticky.probes") > 0 && cnt(r, "sticky.granted_after_timeout") > 0
+			}
+			return cnt(r, "c16.windows") > 0 && cnt(r, "msg.RV") > 0
+		},
+		Rule:   "each run = one guarded window on a stable 3- or 5-voter cluster (optional non-voter): a minority is isolated symmetrically / inbound-only / outbound-only for 0.5-12 election timeouts, crashed and restarted, rejoined through duplicating links, or removed and left running, while clients write to the leader; inside the window no majority-side node may persist a higher term, nobody may become leader, and the leader's samples must stay leader of the same term. Non-trivial: outsiders sent vote requests during the run. w2.disruptrestore: the window is a new leader in contact with a follower that is restoring a snapshot for 16 election timeouts while the restarted old leader (which cannot hear the new one) campaigns. puppet.sticky: one real node answers a scripted legitimate leader (matching / missing-previous / conflicting-previous heartbeat, snapshot, heartbeat while Restore runs; previous contact older than the election timeout in half the probes) and is asked for its (pre)vote microseconds later by the other scripted node: it must neither grant nor adopt the term; probes slower than half the election timeout are not judged; non-trivial when probes were judged and the same request was granted once the timeout had passed",
+		Assume: append([]string{"precondition measured per run: gaps between delivered leader requests (AppendEntries or InstallSnapshot) on majority links < 1/2 election timeout, scheduler stall < 1/4 election timeout"}, windowAssume...)})
 	add(&Check{ID: "C17", Level: "exploration", Props: []string{"C17"},
 		Runs: []RunSpec{
 			{Scen: "w2.lease", Params: "et=600,hb=30,lease=100,opcap=100000", Quick: 24, Thorough: 600, Par: 8},
@@ -226,9 +237,16 @@ func checks() map[string]*Check {
 			{Scen: "w2.lingering", Params: "et=300,hb=20,lease=100,opcap=100000", Quick: 8, Thorough: 200, Par: 8},
 			{Scen: "w2.leasevote", Params: "et=300,hb=20,lease=100,opcap=100000", Quick: 16, Thorough: 400, Par: 8},
 			{Scen: "w1", Params: "crash=1,reads=1,leasereads=1,et=600,hb=30,lease=100,steps=8", Quick: 8, Thorough: 200, Par: 8},
+			{Scen: "puppet.sticky", Quick: 8, Thorough: 200, Par: 8},
+			{Scen: "puppet.sticky", Params: "restoreus=300000", Quick: 8, Thorough: 200, Par: 8},
 		},
-		NT:     func(r *Result) bool { return offl(r, "LeaseReadsOK") > 0 },
-		Rule:   "lease-based reads are issued continuously at the old leader across partitions (from everyone / from the voters only, keeping a non-voter) and leader changes, with election timeout 600 ms, lease 100 ms, injected delay <= 15 ms per direction; successful lease reads are judged by the sequence-number staleness oracle (no clock), and a read invoked more than 5 lease durations after the last voter reply reached the old leader must not return data. Non-trivial: successful lease reads exist",
+		NT: func(r *Result) bool {
+			if r.Scen == "puppet.sticky" {
+				return cnt(r, "sticky.probes") > 0 && cnt(r, "sticky.granted_after_timeout") > 0
+			}
+			return offl(r, "LeaseReadsOK") > 0
+		},
+		Rule:   "lease-based reads are issued continuously at the old leader across partitions (from everyone / from the voters only, keeping a non-voter) and leader changes, with election timeout 600 ms, lease 100 ms, injected delay <= 15 ms per direction; successful lease reads are judged by the sequence-number staleness oracle (no clock), and a read invoked more than 5 lease durations after the last voter reply reached the old leader must not return data. Non-trivial: successful lease reads exist. puppet.sticky (see C16): every answer a voter gives its leader renews the leader's lease, so the voter must refuse (pre)votes for an election timeout afterwards, also when the answer was a rejection",
 		Assume: append([]string{"precondition measured per run: lease + max round trip + max stall < election timeout"}, windowAssume...)})
 
 	add(&Check{ID: "C14", Level: "fault_enumeration", Props: []string{"C14", "C01", "C02", "C06", "C07", "C08", "C10"},
@@ -263,6 +281,7 @@ func checks() map[string]*Check {
 			{Scen: "w2.boundarylag", Params: "snapshots=1,pad=100", Quick: 24, Thorough: 600},
 			{Scen: "w1", Params: "snapshots=1,crash=0,bounce=1,restoreus=4000,snapthr=5,voters=3", Quick: 24, Thorough: 600},
 			{Scen: "w2.bouncerestore", Params: "snapshots=1,restoreus=15000", Quick: 24, Thorough: 600},
+			{Scen: "w2.hightermrestart", Quick: 12, Thorough: 300},
 			{Scen: "w2.members", Quick: 16, Thorough: 400},
 			{Scen: "codec.e2e", Params: "size=4718592", Quick: 1, Thorough: 2},
 			{Scen: "puppet.is", Params: "cases=30", Quick: 16, Thorough: 400},
